@@ -213,10 +213,7 @@ def convert_legacy_task(
         new_args = []
         new: object
         for a in args:
-            if isinstance(a, dict):
-                new = Dict(a)
-            else:
-                new = convert_legacy_task(None, a, all_keys)
+            new = convert_legacy_task(None, a, all_keys)
             new_args.append(new)
         return Task(key, func, *new_args)
     try:
@@ -229,6 +226,16 @@ def convert_legacy_task(
     except TypeError:
         # Unhashable
         pass
+
+    if type(task) is dict:
+        # dict values are evaluated like list elements (``keys_in_tasks``
+        # already reports the keys they reference as dependencies)
+        parsed_dict = {k: convert_legacy_task(None, v, all_keys) for k, v in task.items()}
+        if any(isinstance(v, GraphNode) for v in parsed_dict.values()):
+            new_dict = Dict(parsed_dict)
+            new_dict.key = key
+            return new_dict
+        return cast(_T, parsed_dict)
 
     if isinstance(task, (list, tuple, set, frozenset)):
         if is_namedtuple_instance(task):
